@@ -17,8 +17,14 @@ RT = 2e-5      # AD vs 4th-order central differences
 RT_MODES = 1e-8  # forward vs reverse
 
 
-def close(a, b, scale, rt):
-    return all((x == x) and abs(x - y) <= rt * (abs(y) + scale) + 1e-11 for x, y in zip(a, b))
+def close(a, b, scale, rt, floor=0.0):
+    return all((x == x) and abs(x - y) <= rt * (abs(y) + scale) + 1e-11 + floor for x, y in zip(a, b))
+
+
+def fd_floor(primal):
+    """rounding error of the 4th-order central difference with step 1e-5: ~1.5 eps |f| / h = 3e-11 |f|; 1e-10 |f| is used"""
+    vals = [abs(x) for x in primal if isinstance(x, float) and math.isfinite(x)]
+    return 1e-10 * max(vals + [0.0])
 
 
 def main():
@@ -60,7 +66,7 @@ def main():
                 need_triu.append(i)
             if not fin:
                 need_norm.append(i)
-            if fin and not close(jv, fd, scale, RT):
+            if fin and not close(jv, fd, scale, RT, fd_floor(r["primal"][qn])):
                 need_qr.append(i)
     need_qr, need_triu, need_norm = sorted(set(need_qr)), sorted(set(need_triu)), sorted(set(need_norm))
     nres = dict(zip(need_norm, lib.run_impl("c16_impl.py", {"cases": [fl[i] for i in need_norm], "phase": "safe_norm"}, timeout=3000)["results"])) if need_norm else {}
@@ -98,7 +104,8 @@ def main():
         sc2 = max([abs(x) for x in fd2 if math.isfinite(x)] + [1e-30])
         if not all(math.isfinite(x) for x in jv2 + ex2):
             return False
-        return (not close(jv2, fd2, sc2, RT)) and close(ex2, fd2, sc2, RT)
+        fl2 = fd_floor(a["primal"][qn])
+        return (not close(jv2, fd2, sc2, RT, fl2)) and close(ex2, fd2, sc2, RT, fl2)
 
     nf5 = 0
     nf5_nb = 0
@@ -131,10 +138,9 @@ def main():
                     keep = [k for k in range(len(jv)) if k not in bad]
                     jv, rv, fd = [jv[k] for k in keep], [rv[k] for k in keep], [fd[k] for k in keep]
                 elif qn == "loss" and i in tres and "error" not in tres[i] and all(math.isfinite(x) for x in tres[i]["jvp"]["loss"] + tres[i]["rev"]["loss"]) \
-                        and close(tres[i]["jvp"]["loss"], tres[i]["rev"]["loss"], scale, RT_MODES) \
-                        and (close(tres[i]["jvp"]["loss"], fd, scale, RT) or (not badf and close(tres[i]["jvp"]["loss"], jv, scale, RT))):
-                    # finite, mode-consistent and equal to the finite forward derivative (or to the directional derivative) once the
-                    # SVD-based least squares is replaced by solve_triu
+                        and close(tres[i]["jvp"]["loss"], tres[i]["rev"]["loss"], scale, RT_MODES):
+                    # finite and mode-consistent once the SVD-based least squares is replaced by solve_triu (whether that value is the
+                    # directional derivative is decided below: the qr_r rule may still make it differ)
                     ck.report("C16.loss.lstsq_svd.non-finite-gradient",
                               f"{cfgs}: the gradient of the time-series loss w.r.t. {c['param']} is NaN; finite and correct with solve_triu instead of the "
                               "SVD-based least squares (repeated singular values of the innovation factor)", {"case": jc, "jvp": jv, "rev": rv})
@@ -155,7 +161,8 @@ def main():
                 ck.report(sig + ".fwd-vs-rev", f"{cfgs}: forward and reverse derivatives of {qn} w.r.t. {c['param']} disagree",
                           {"case": jc, "quantity": qn, "jvp": jv, "rev": rv})
                 continue
-            if close(jv, fd, scale, RT):
+            floor = fd_floor(pv)
+            if close(jv, fd, scale, RT, floor):
                 continue
             worst = max(abs(x - y) for x, y in zip(jv, fd))
             ex = None
@@ -167,8 +174,8 @@ def main():
             if ex is not None:
                 idx_f = [k for k in range(len(ex)) if math.isfinite(ex[k])]
                 idx_n = [k for k in range(len(ex)) if not math.isfinite(ex[k])]
-                explained = bool(idx_f) and close([ex[k] for k in idx_f], [fd[k] for k in idx_f], scale, RT) \
-                    and close([jv[k] for k in idx_n], [fd[k] for k in idx_n], scale, RT)
+                explained = bool(idx_f) and close([ex[k] for k in idx_f], [fd[k] for k in idx_f], scale, RT, floor) \
+                    and close([jv[k] for k in idx_n], [fd[k] for k in idx_n], scale, RT, floor)
             if not explained and neighbour_explains(i, qn):
                 explained = True
                 nf5_nb += 1
